@@ -55,6 +55,9 @@ pub enum FieldEdit {
 pub enum FaultKind {
     Raw(Vec<u8>),
     MutByte { pkt: usize, pos: usize, val: u8 },
+    /// one payload byte of an OBJECT packet (the `back`-th from the end) is altered: header, extensions and payload id
+    /// stay what the sender wrote
+    MutPayload { pkt: usize, back: usize, xor: u8 },
     Truncate { pkt: usize, len: usize },
     Extend { pkt: usize, extra: Vec<u8> },
     Splice { a: usize, b: usize, cut_a: usize, cut_b: usize },
@@ -177,7 +180,8 @@ pub fn foreign() -> Vec<(Vec<Vec<u8>>, Vec<u8>)> {
 const HDR_POS_MAX: u64 = 72; // header region positions enumerated per packet
 const PKT_MAX: u64 = 24;
 
-const FDT_ATTRS: [&str; 9] = [
+const FDT_ATTRS: [&str; 10] = [
+    "Expires",
     "FEC-OTI-Scheme-Specific-Info",
     "FEC-OTI-Encoding-Symbol-Length",
     "FEC-OTI-Maximum-Source-Block-Length",
@@ -208,6 +212,8 @@ fn fdt_attr_values(attr: &str, orig: &str) -> Vec<String> {
             }
         }
         "Content-Encoding" => v.extend(["gzip", "zlib", "deflate", "null", "bogus", ""].iter().map(|s| s.to_string())),
+        // (NTP seconds: before 1970, the 1970 boundary, beyond 32 bits, not a number)
+        "Expires" => v.extend(["0", "1", "2208988799", "2208988800", "2208988801", "4294967295", "4294967296", "9999999999", "18446744073709551616", "-1", "", "abc", " 7 ", "1e9"].iter().map(|s| s.to_string())),
         "FEC-OTI-FEC-Encoding-ID" => v.extend(["0", "1", "2", "3", "5", "6", "128", "129", "255", "256", "-1"].iter().map(|s| s.to_string())),
         _ => {
             let n: i128 = orig.parse().unwrap_or(0);
@@ -398,6 +404,16 @@ pub fn gen(idx: u64, rng: &mut Rng, tier: Tier) -> Scn {
     recv.receive_once = rng.chance(0.7);
     recv.max_objects_error = *rng.pick(&[0usize, 1, 4]);
     recv.cache_size = Some(*rng.pick(&[1024usize, 64 * 1024]));
+    if rng.chance(0.08) {
+        // nothing but altered payloads of object packets, MD5 announced and checked: the object fails as a whole, the
+        // retransmission of the valid session delivers it
+        recv.md5_check = true;
+        for o in sender.objects.iter_mut() {
+            o.md5 = true;
+        }
+        let faults = (0..rng.range(1, 3)).map(|_| Fault { at: rng.below(40) as usize, kind: FaultKind::MutPayload { pkt: rng.below(40) as usize, back: rng.below(2000) as usize, xor: rng.below(256) as u8 } }).collect();
+        return Scn { sender, recv, faults, fresh_all: false };
+    }
     let nf = rng.range(1, 50) as usize;
     let mut faults = Vec::new();
     let base_xml = "<?xml version=\"1.0\" encoding=\"UTF-8\"?><FDT-Instance xmlns=\"urn:IETF:metadata:2005:FLUTE:FDT\" Expires=\"4000000000\" FEC-OTI-FEC-Encoding-ID=\"0\" FEC-OTI-Maximum-Source-Block-Length=\"64\" FEC-OTI-Encoding-Symbol-Length=\"16\"><File TOI=\"1\" Content-Location=\"file:///a\" Content-Length=\"101\" Transfer-Length=\"101\" Content-Type=\"t\"/><File TOI=\"2\" Content-Location=\"file:///b\" Content-Length=\"0\" Transfer-Length=\"0\"/></FDT-Instance>";
@@ -532,6 +548,11 @@ struct Pusher<'a> {
     t_us: u64,
     accepted_faulty: u64,
     rejected_faulty: u64,
+    /// accepted faulty packets that are something else than an object packet of the valid session with an altered
+    /// payload (same header, extensions and payload id)
+    accepted_other: u64,
+    /// the valid session's object packets with the payload blanked
+    originals: Vec<wire::Decoded>,
     what: String,
 }
 
@@ -546,6 +567,16 @@ impl Pusher<'_> {
         if faulty {
             if ok {
                 self.accepted_faulty += 1;
+                let payload_only = match wire::decode(bytes) {
+                    Ok(mut d) => {
+                        d.payload.clear();
+                        d.toi != 0 && self.originals.contains(&d)
+                    }
+                    Err(_) => false,
+                };
+                if !payload_only {
+                    self.accepted_other += 1;
+                }
             } else {
                 self.rejected_faulty += 1;
             }
@@ -638,6 +669,18 @@ pub fn run(scn: &Scn, ctx: &Ctx, scratch: &Path) {
         t_us: t0_us(),
         accepted_faulty: 0,
         rejected_faulty: 0,
+        accepted_other: 0,
+        originals: sess
+            .trace
+            .pkts
+            .iter()
+            .filter(|e| e.dec.toi != 0)
+            .map(|e| {
+                let mut d = e.dec.clone();
+                d.payload.clear();
+                d
+            })
+            .collect(),
         what: String::new(),
     };
     // a hard ceiling far above the soft limit keeps a runaway allocation from taking the machine down
@@ -662,6 +705,17 @@ pub fn run(scn: &Scn, ctx: &Ctx, scratch: &Path) {
                             ctx.borrow_mut().count_fault("mutate-byte");
                             fired += 1;
                         }
+                    }
+                }
+                FaultKind::MutPayload { pkt, back, xor } => {
+                    // the next object packet with a payload at or after the index
+                    if let Some(e) = (0..n).map(|k| &sess.trace.pkts[(*pkt + k) % n]).find(|e| e.dec.toi != 0 && !e.dec.payload.is_empty()) {
+                        let mut b = e.bytes.clone();
+                        let pos = b.len() - 1 - (*back % e.dec.payload.len());
+                        b[pos] ^= *xor | 1;
+                        p.push(&b, true);
+                        ctx.borrow_mut().count_fault("mutate-payload-only");
+                        fired += 1;
                     }
                 }
                 FaultKind::Truncate { pkt, len } => {
@@ -698,7 +752,9 @@ pub fn run(scn: &Scn, ctx: &Ctx, scratch: &Path) {
                     }
                 }
                 FaultKind::Fdt { xml, instance, e } => {
-                    for b in wire::packetise_fdt(xml.as_bytes(), scn.sender.spec.tsi, *instance, *e, None, None) {
+                    // (half of the crafted instances carry a sender current time a little behind the receiver's clock)
+                    let sct = if *instance % 2 == 0 { Some(wire::ntp_of_unix_micros(t0_us() - 1_500_000)) } else { None };
+                    for b in wire::packetise_fdt(xml.as_bytes(), scn.sender.spec.tsi, *instance, *e, sct, None) {
                         p.push(&b, true);
                     }
                     ctx.borrow_mut().count_fault("mutate-fdt");
@@ -741,11 +797,20 @@ pub fn run(scn: &Scn, ctx: &Ctx, scratch: &Path) {
                             for v in fdt_attr_values(attr, &orig) {
                                 let mut x = xml.clone();
                                 x.replace_range(st..en, &v);
-                                let fdt = wire::packetise_fdt(x.as_bytes(), scn.sender.spec.tsi, tx.instance_id, tx.e as usize, None, None);
-                                let (last, head) = fdt.split_last().unwrap();
-                                let cx: Vec<&[u8]> = head.iter().map(|b| b.as_slice()).collect();
-                                fresh_variant(scn, ctx, &cx, last, &objs, &format!("fresh receiver: FDT with {}=\"{}\" (was \"{}\") first, then the object packets", attr, truncate(&v, 40), truncate(&orig, 40)));
-                                fired += 1;
+                                // (the lifetime attribute: also with a sender-current-time extension whose clock is a little
+                                // behind / far ahead of the receiver's)
+                                let scts: Vec<Option<(u32, u32)>> = if attr == "Expires" {
+                                    vec![None, Some(wire::ntp_of_unix_micros(t0_us() - 1_500_000)), Some(wire::ntp_of_unix_micros(t0_us() + 86_400_000_000))]
+                                } else {
+                                    vec![None]
+                                };
+                                for sct in scts {
+                                    let fdt = wire::packetise_fdt(x.as_bytes(), scn.sender.spec.tsi, tx.instance_id, tx.e as usize, sct, None);
+                                    let (last, head) = fdt.split_last().unwrap();
+                                    let cx: Vec<&[u8]> = head.iter().map(|b| b.as_slice()).collect();
+                                    fresh_variant(scn, ctx, &cx, last, &objs, &format!("fresh receiver: FDT with {}=\"{}\" (was \"{}\"){} first, then the object packets", attr, truncate(&v, 40), truncate(&orig, 40), if sct.is_some() { " and EXT_TIME" } else { "" }));
+                                    fired += 1;
+                                }
                             }
                         }
                         ctx.borrow_mut().count_fault("hostile-fdt-attribute-first");
@@ -877,6 +942,33 @@ pub fn run(scn: &Scn, ctx: &Ctx, scratch: &Path) {
                         format!("after the faulty traffic a valid session on a fresh TSI did not deliver toi={}", o.toi),
                     );
                 }
+            }
+        }
+    }
+    if !all_rejected && p.accepted_other == 0 && scn.recv.md5_check && scn.sender.objects.iter().all(|o| o.md5) {
+        // every accepted faulty packet was an object packet of the session with an altered PAYLOAD only (same header,
+        // extensions, payload id): the worst it can do is make its object fail its MD5 / inflate check. The object is
+        // then rejected as a whole - and the complete retransmission of the valid session (twice: the carousel goes on)
+        // on the same TSI still delivers it
+        ctx.borrow_mut().note("recovery:same-tsi-after-payload-corruption");
+        for _ in 0..2 {
+            for e in &sess.trace.pkts {
+                p.what = "retransmitted valid session".into();
+                p.push(&e.bytes.clone(), false);
+            }
+        }
+        for o in &sess.objs {
+            let (exact, _, _) = completes_exact(&monitor, o);
+            if exact == 0 {
+                violate(
+                    ctx,
+                    "C04/not-usable-after-faults",
+                    "same-tsi-after-payload-corruption",
+                    format!(
+                        "{} packets of the session with an altered payload were accepted (nothing else), the MD5 check is on: toi={} was not delivered by two complete retransmissions of the valid session on the same TSI",
+                        p.accepted_faulty, o.toi
+                    ),
+                );
             }
         }
     }
